@@ -101,6 +101,9 @@ def _core_programs():
         _P([dict(c, act=False), dict(c)], 'gaplin'),
         _P([dict(c), dict(c, bias=False)], 'gaplin'),
         _P([dict(c, s=2, p=0, bn=True), {'op': 'conv', 'dw': True, 's': 2}], 'linlin'),
+        # padding modes other than zeros
+        _P([dict(c, pm='reflect')], 'flatlin'),
+        _P([dict(c, pm='circular'), {'op': 'conv', 'dw': True, 'pm': 'replicate'}], 'gaplin'),
         # the activation separated from its layer by a pass-through op: conv [-> BN] -> pool -> ReLU
         _P([dict(c, act=False), {'op': 'pool'}, {'op': 'relu'}, dict(c)], 'flatlin'),
         _P([dict(c, act=False, bn=True), {'op': 'pool'}, {'op': 'relu'}], 'linlin'),
@@ -138,9 +141,13 @@ def _bn_on_single_pixel(p):
     for s in p['stages']:
         if s['op'] == 'pool':
             size //= 2
+        elif s['op'] == 'relu':
+            continue
         else:
             k = s.get('k', 3)
-            size = (size + 2 * s.get('p', k // 2) - k) // s.get('s', 1) + 1
+            pad = s.get('p', k // 2)
+            pad = k // 2 if pad == 'same' else 0 if pad == 'valid' else pad
+            size = (size + 2 * pad - k) // s.get('s', 1) + 1
             if s.get('bn') and size <= 1:
                 return True
     return False
@@ -439,6 +446,10 @@ def _int_weights(F):
 
 def _acc(F, u, W):
     if isinstance(F, nn.Conv2d):
+        if F.padding_mode != 'zeros' and not isinstance(F.padding, str):
+            # the reference accumulator pads the way the ORIGINAL layer does (reflect / replicate / circular)
+            pads = (F.padding[1], F.padding[1], F.padding[0], F.padding[0])
+            return Fn.conv2d(Fn.pad(u, pads, mode=F.padding_mode), W, None, F.stride, 0, F.dilation, F.groups)
         return Fn.conv2d(u, W, None, F.stride, F.padding, F.dilation, F.groups)
     return Fn.linear(u, W, None)
 
@@ -719,6 +730,11 @@ def run_config(exp, x, opt, res, add, stats):
                 with torch.no_grad():
                     cls = backend_factory(V, be)
                     layers[n] = cls(V, V.in_quantizer, V.out_quantizer, V.w_quantizer, V.b_quantizer, **kw)
+            except NotImplementedError as e:
+                # the back-end DECLARES the configuration unsupported (e.g. MAUPITI: "Same padding is not supported yet"): outside the property
+                failing.append(n)
+                res['outcomes'].add('info:back-end-declares-unsupported')
+                res['evals'] += 1
             except Exception as e:
                 failing.append(n)
                 add('integer-layer-raises', _raise_sig(e, feats[n], backend, 'construct'),
